@@ -447,6 +447,7 @@ func main() {
 		}
 	}
 	e2ePhase(r)
+	managerPhase(r)
 	run.Finish()
 }
 
